@@ -44,21 +44,24 @@ type BoundedResult struct {
 }
 
 type Report struct {
-	eng     *Engine
-	cfg     *PropConfig
-	prop    string
-	tier    string
-	groups  []*Group
-	funcs   []string
-	outDir  string
-	verif   string
-	repo    string
-	LoadS   float64
-	GenS    float64
-	WallS   float64
-	bounded []BoundedResult
-	bviol   []string
-	knownBoundedN int
+	eng                  *Engine
+	cfg                  *PropConfig
+	prop                 string
+	tier                 string
+	groups               []*Group
+	funcs                []string
+	outDir               string
+	verif                string
+	repo                 string
+	LoadS                float64
+	GenS                 float64
+	WallS                float64
+	start                time.Time
+	slowMs               int64
+	slowName, slowSolver string
+	bounded              []BoundedResult
+	bviol                []string
+	knownBoundedN        int
 }
 
 func buildReport(eng *Engine, cfg *PropConfig, prop, tier string, obligs []*Oblig, funcs []string, outDir, verif, repo string) *Report {
@@ -270,10 +273,16 @@ func (r *Report) finish(writeEvidence bool) int {
 	nInst := 0
 	for _, g := range r.groups {
 		for _, ob := range g.Instances {
+			if g.OK && ob.TimeMs > r.slowMs {
+				r.slowMs, r.slowName, r.slowSolver = ob.TimeMs, g.Name, ob.Solver
+			}
 			solverMs += ob.TimeMs
 			bySolver[strings.TrimSuffix(ob.Solver, "(cached)")]++
 			nInst++
 		}
+	}
+	if !r.start.IsZero() {
+		r.WallS = time.Since(r.start).Seconds() // whole run, including known-finding replays and bounded stand-ins
 	}
 	fmt.Printf("gvc %s %s: %d obligations (%d instances), %d discharged, %d violations, %d known findings; functions=%d; load %.1fs gen %.1fs solver-cpu %.1fs wall %.1fs\n",
 		r.prop, r.tier, total, nInst, discharged, violations, knownN, len(r.funcs), r.LoadS, r.GenS, float64(solverMs)/1000, r.WallS)
@@ -327,6 +336,7 @@ func (r *Report) writeEvidence(total, discharged, violations, knownN int, sample
 		"package_load_s":           r.LoadS,
 		"bounded":                  r.bounded,
 		"explanation":              r.cfg.Note,
+		"slowest_discharged":       map[string]any{"obligation": r.slowName, "solver": r.slowSolver, "time_ms": r.slowMs},
 	}
 	ev := map[string]any{
 		"property_id": r.prop,
@@ -339,8 +349,14 @@ func (r *Report) writeEvidence(total, discharged, violations, knownN int, sample
 		"violations":  violations,
 	}
 	b, _ := json.MarshalIndent(ev, "", " ")
-	os.MkdirAll(filepath.Join(r.verif, "evidence"), 0o755)
-	os.WriteFile(filepath.Join(r.verif, "evidence", r.prop+".json"), b, 0o644)
+	// Self-test runs on deliberately broken trees set VERIF_EVIDENCE_DIR so that they never
+	// overwrite the evidence of the unchanged tree.
+	dir := filepath.Join(r.verif, "evidence")
+	if d := os.Getenv("VERIF_EVIDENCE_DIR"); d != "" {
+		dir = d
+	}
+	os.MkdirAll(dir, 0o755)
+	os.WriteFile(filepath.Join(dir, r.prop+".json"), b, 0o644)
 }
 
 var boundedLine = regexp.MustCompile(`BOUNDED name=(\S+) cases=(\d+)`)
